@@ -31,10 +31,9 @@ Q == 0..(NQ - 1)
 Gate2 == {<<n, <<a, b>>>> : n \in {"cx"}, a \in Q, b \in Q} \cup {<<n, <<a, b>>>> : n \in {"cz", "swap"}, a \in Q, b \in Q}
 Gate3 == {<<"ccx", <<a, b, c>>>> : a \in Q, b \in Q, c \in Q} \cup {<<"ccz", <<a, b, c>>>> : a \in Q, b \in Q, c \in Q}
 Distinct(qs) == Cardinality({qs[i] : i \in 1..Len(qs)}) = Len(qs)
-Canon(g) == \* cz / swap / ccz are symmetric: one representative; ccx: controls in increasing order
-   IF g[1] \in {"cz", "swap"} THEN g[2][1] < g[2][2]
-   ELSE IF g[1] = "ccz" THEN g[2][1] < g[2][2] /\ g[2][2] < g[2][3]
-   ELSE IF g[1] = "ccx" THEN g[2][1] < g[2][2]
+Canon(g) == \* swap / ccz are symmetric: one representative; cz and ccx in EVERY qubit order (the converter handles the orders differently)
+   IF g[1] \in {"swap"} THEN g[2][1] < g[2][2]
+   ELSE IF g[1] = "ccz" THEN (g[2][1] < g[2][2] /\ g[2][2] < g[2][3]) \/ (g[2][1] > g[2][2] /\ g[2][2] > g[2][3]) \/ (g[2][2] < g[2][1] /\ g[2][1] < g[2][3])
    ELSE TRUE
 GateSet == {g \in Gate2 \cup Gate3 : Distinct(g[2]) /\ Canon(g)}
 QS(g) == {g[2][i] : i \in 1..Len(g[2])}
